@@ -148,6 +148,9 @@ type frame struct {
 	rangeInfo map[*ssa.Range][2]string
 	rangeVis  map[*ssa.Range][3]string // visited-set ghost key, key set at the start, key sort
 	siteOrd map[string][]ssa.Instruction
+	parent      *frame          // the frame this one is inlined into
+	parentSite  ssa.Instruction // the call instruction in parent that was inlined
+	pendingSite ssa.Instruction
 	aliasLocals map[string]string // recorded name the function no longer has -> current name of that variable
 	aliasParams map[string]int
 }
